@@ -17,6 +17,7 @@
 #include "common.h"
 
 #include <errno.h>
+#include <stdlib.h>
 #include <string.h>
 
 /**
